@@ -293,14 +293,37 @@ def save_bytes(sensors, workdir, fmt, name="enc"):
     return data
 
 
+_SPELLING = [0]
+
+
 def fresh_load(path):
-    """`safe_load_sensors()` of a fresh gateway on `path`: (exception or None, sensors)."""
-    gw = make_gateway("2.2", persistence_file=path)
+    """`safe_load_sensors()` of a fresh gateway on `path`: (exception or None, sensors).  The file is named
+    as an absolute path, relative to the working directory, or through a symbolic link to its directory, in
+    rotation — what is loaded must not depend on how the user spelled the path."""
+    _SPELLING[0] += 1
+    how = _SPELLING[0] % 3
+    cwd = os.getcwd()
+    named = path
     try:
-        gw.tasks.persistence.safe_load_sensors()
-    except BaseException as exc:  # noqa: BLE001
-        return exc, gw.sensors
-    return None, gw.sensors
+        if how == 1:
+            os.chdir(os.path.dirname(path))
+            named = os.path.basename(path)
+        elif how == 2:
+            link = os.path.dirname(path).rstrip("/") + "-link"
+            try:
+                if not os.path.islink(link):
+                    os.symlink(os.path.dirname(path), link)
+                named = os.path.join(link, os.path.basename(path))
+            except OSError:
+                named = path
+        gw = make_gateway("2.2", persistence_file=named)
+        try:
+            gw.tasks.persistence.safe_load_sensors()
+        except BaseException as exc:  # noqa: BLE001
+            return exc, gw.sensors
+        return None, gw.sensors
+    finally:
+        os.chdir(cwd)
 
 
 def tmp_name(path):
@@ -377,6 +400,17 @@ class OsProxy:
 
     def __getattr__(self, name):
         return getattr(os, name)
+
+    def open(self, path, flags, *args, **kwargs):
+        # os.open used to create the file to be written (e.g. to set its mode)
+        writing = flags & (os.O_WRONLY | os.O_RDWR | os.O_CREAT | os.O_APPEND | os.O_TRUNC)
+        if writing:
+            self._shim.op("open", os.path.basename(path))
+        fd = os.open(path, flags, *args, **kwargs)
+        if writing:
+            self._shim.fd_path[fd] = path
+            self._shim.unsynced.add(path)
+        return fd
 
     def fsync(self, fd):
         self._shim.op("fsync", self._shim.fd_path.get(fd))
@@ -456,6 +490,10 @@ class FsShim:
         self._abandoned.append(real)
 
     def open(self, path, mode="r", *args, **kwargs):
+        if isinstance(path, int):
+            # a descriptor from os.open (already recorded there)
+            real = open(path, mode, *args, **kwargs)
+            return FileProxy(self, real, self.fd_path.get(path))
         if "w" in mode or "a" in mode or "+" in mode:
             self.op("open", os.path.basename(path))
             real = open(path, mode, *args, **kwargs)
